@@ -215,11 +215,28 @@ def run(c):
             return "\n".join(src), len(fastp)
 
         c.log("oracle compared; running the model in Coq")
+        # decode / encode against Go's own UTF-8 handling
+        dec = next((o for o in obs if o["k"] == "decode"), None)
+        dec_src = ""
+        if dec:
+            dec_src = "\n".join([
+                "Definition dcases : list (Z * bytes * list Z) := [",
+                ";\n".join("(%d, %s, [%s])" % (k, coq_bytes(b64(i)), ";".join(str(x) for x in r)) for k, (i, r) in enumerate(zip(dec["inputs"], dec["runes"]))),
+                "].",
+                "Definition ecases : list (Z * list Z * bytes) := [",
+                ";\n".join("(%d, [%s], %s)" % (k, ";".join("(%d)" % x for x in r), coq_bytes(b64(e))) for k, (r, e) in enumerate(zip(dec["encs"] or [], dec["encout"] or []))),
+                "].",
+                "Definition zs_eqb (a b : list Z) : bool := bytes_eqb a b.",
+                "Definition bad_dec := map (fun c => fst (fst c)) (filter (fun c => match c with (i, b, r) => negb (zs_eqb (decode b) r) end) dcases).",
+                "Definition bad_enc := map (fun c => fst (fst c)) (filter (fun c => match c with (i, r, e) => negb (bytes_eqb (encode r) e) end) ecases).",
+                "Definition DRES := Eval vm_compute in (bad_dec, bad_enc).", "Print DRES."])
         jobs, nfast = [], 0
         for k in range(NSH):
             s, nf = shard(sel[k::NSH])
             nfast += nf
             jobs.append(("Cases_%s_%d.v" % (tag, k), s))
+        if dec_src:
+            jobs.append(("Cases_%s_decode.v" % tag, pre + "\n" + dec_src))
         bsel, bcap, bmatch = [], [], []
 
         def ints(s):
@@ -228,6 +245,20 @@ def run(c):
             if not ok:
                 c.obligation("coq-eval:" + fname, False, out[-2000:])
                 return
+            if fname.endswith("_decode.v"):
+                m = pyre.search(r"DRES\s*=\s*\((.*?)\)\s*:\s", out, pyre.S)
+                lists = pyre.findall(r"\[(.*?)\]", pyre.sub(r"\s+", " ", m.group(1))) if m else []
+                if len(lists) != 2:
+                    c.obligation("coq-eval-parse:" + fname, False, out[-2000:])
+                    return
+                for k in ints(lists[0]):
+                    c.fail("corr", "Coq decode differs from Go's decoding of the byte string", input={"bytes": repr(b64(dec["inputs"][k]))},
+                           observed=dec["runes"][k])
+                for k in ints(lists[1]):
+                    c.fail("corr", "Coq encode differs from Go's string([]rune)", input={"runes": dec["encs"][k]}, observed=repr(b64(dec["encout"][k])))
+                c.count(len(dec["inputs"]) + len(dec["encs"] or []))
+                c.coverage["utf8_model_vs_go_cases"] = c.coverage.get("utf8_model_vs_go_cases", 0) + len(dec["inputs"]) + len(dec["encs"] or [])
+                continue
             m = pyre.search(r"RES\s*=\s*\((.*?)\)\s*:\s", out, pyre.S)
             lists = pyre.findall(r"\[(.*?)\]", pyre.sub(r"\s+", " ", m.group(1))) if m else []
             if len(lists) != 3:
